@@ -66,7 +66,7 @@ export async function check(group, records) {
     // determinism: same text in a fresh Globals and in a long-lived Globals
     const det = rec.det || {};
     let bad = null;
-    for (const k of ['fresh', 'long_lived']) {
+    for (const k of ['fresh', 'long_lived', 'dirty_handler']) {
       const d = det[k];
       if (!d) continue;
       if (d.panic) { bad = { cls: `second-run-panic/${k}`, detail: d.panic }; break; }
